@@ -74,7 +74,7 @@ pub struct CModel {
     pub had_session: bool,
     pub disconnect_notices: u32,
     /// accepted indexes received through a shared group, in arrival order
-    pub shared_seen: Vec<u32>,
+    pub shared_seen: Vec<(String, u32)>,
     /// topic aliases this connection established as a publisher
     pub alias_in: BTreeMap<u16, String>,
 }
@@ -181,7 +181,10 @@ impl Model {
     /// unacknowledged message and does not put a resumed member back into the group): the
     /// shared-subscription oracles report under one code from then on.
     fn shared_recode(&self, code: &str, detail: String) -> (String, String) {
-        if self.persistent_shared_left && code.starts_with("shared_") {
+        // (a forward of the group that the model can no longer attribute to the group shows up
+        // under the plain forward oracles)
+        let forward_oracle = code.starts_with("shared_") || matches!(code, "unexpected_forward" | "spurious_forward");
+        if self.persistent_shared_left && forward_oracle {
             ("shared_group_after_persistent_member_left".to_string(), format!("(consequence: {code}) {detail}"))
         } else {
             (code.to_string(), detail)
@@ -963,15 +966,18 @@ impl Model {
         }
         self.gmsgs[k].delivered_to.push(ci);
         self.gmsgs[k].delivered_on.push(my_epoch);
-        if let Some(last) = self.clients[ci].shared_seen.last() {
+        // acceptance order within one shared subscription (two groups read two logs: no order
+        // is promised between them)
+        if let Some((_, last)) = self.clients[ci].shared_seen.iter().rev().find(|(sg, _)| sg == g) {
             if *last > idx {
+                let last = *last;
                 self.v(
                     "shared_order",
                     format!("{name} received message #{idx} of group {g} after message #{last}"),
                 );
             }
         }
-        self.clients[ci].shared_seen.push(idx);
+        self.clients[ci].shared_seen.push((g.to_string(), idx));
     }
 
     // ------------------------------------------------------------ closure-time oracles
